@@ -157,6 +157,13 @@ impl<'a> Sk<'a> {
         if let Some(t) = lit {
             return Self::fl_const(&t);
         }
+        // S14b: `f64::EPSILON` is 2^-52, exactly
+        if let syn::Expr::Path(p) = e {
+            let segs: Vec<String> = p.path.segments.iter().map(|s| s.ident.to_string()).collect();
+            if segs == ["f64", "EPSILON"] || segs == ["std", "f64", "EPSILON"] {
+                return Some("fl_rat(false, 1, 4503599627370496)".to_string());
+            }
+        }
         match e {
             syn::Expr::Paren(p) => self.fl_const_expr(&p.expr),
             syn::Expr::Group(g) => self.fl_const_expr(&g.expr),
